@@ -37,6 +37,7 @@ func TestZsimC01Rpc(t *testing.T) {
 
 func c01RpcRun(r *zsim.Run) {
 	timex.ZsimReset()
+	breaker.ZsimReset()
 	r.RandMode = 1
 	o := r.Ops
 	r.NonTrivial()
